@@ -3,7 +3,8 @@
    model: VecIndex.merged (Engine.GetMergedHighestBefore / HighestBeforeSeq.GatherFrom);
    specification: FcSpec.merged_spec (ancestry closure, seq-forks, maximum). *)
 From Coq Require Import NArith List Permutation Bool.
-From LV Require Import model.VecIndex spec.FcSpec proofs.FcSpecFast proofs.FcSpecFacts proofs.VecInv proofs.VecMerged proofs.VecMain.
+From LV Require model.Wlru proofs.WlruProofs.
+From LV Require Import model.VecPersist proofs.VecPersistProofs model.VecIndex spec.FcSpec proofs.FcSpecFast proofs.FcSpecFacts proofs.VecInv proofs.VecMerged proofs.VecMain.
 Import ListNotations.
 Local Open Scope N_scope.
 
@@ -37,6 +38,16 @@ Theorem C06_flush_drop_histories : forall n ops st a ea, vinv n (vs_flushed st) 
   evt (vs_cur st') a ea -> map proj (merged (vs_cur st') a) = merged_spec n (evs (vs_cur st')) a.
 Proof. exact vstore_merged. Qed.
 
+(* Rounds 5-6: the SAME Index object reused (Resets onto the same DB, or onto a new empty DB with ANOTHER validator
+   count as abft does at an epoch seal), merged clock read through the HighestBefore cache: it equals the
+   specification for the validator count current at the time *)
+Theorem C06_reuse_history_merged : forall ws n cap mw ms c0 U ops a ea, WlruProofs.small mw -> Wlru.new mw ms = Some c0 ->
+  rops_ok U (r_init ws n cap c0) ops ->
+  let st := fold_left rstep (map fst ops) (r_init ws n cap c0) in
+  evt (ce_view (r_ce st)) a ea ->
+  map proj (fst (ce_merged (r_ce st) a)) = merged_spec (r_n st) (evs (ce_view (r_ce st))) a.
+Proof. exact reuse_history_merged. Qed.
+
 (* non-vacuity: the fork stream of props/C05.v (validator 0 forks at seq 2; event 6 sees it) *)
 Definition ex_o : list event :=
   [ {| eid := 1; ecr := 0; eseq := 1; epar := [] |};
@@ -61,9 +72,23 @@ Example C06_ex_values :
   merged_spec 3 (dag_of ex_o) 6 = [(true, 0); (false, 2); (false, 1)].
 Proof. vm_compute. repeat split; reflexivity. Qed.
 
+(* 3 validators, then Reset onto a new DB with 6 validators on the same object: validator 4's events are its own *)
+Definition ex_c16 : bcache := Wlru.mkCache [] 0 16 16 false.
+Definition ex_o6 : list event :=
+  [ {| eid := 1; ecr := 4; eseq := 1; epar := [] |}; {| eid := 2; ecr := 5; eseq := 1; epar := [1] |};
+    {| eid := 3; ecr := 4; eseq := 2; epar := [1; 2] |} ].
+Definition ex_rops6 : list rop :=
+  map (fun e => RO (CAdd e)) (firstn 3 ex_o) ++ [RO CFlush; RResetFresh [1;1;1;1;1;1] 6] ++
+  map (fun e => RO (CAdd e)) ex_o6 ++ [RO CFlush].
+Example C06_ex_bigger_epoch :
+  let st := fold_left rstep ex_rops6 (r_init [1;1;1] 3 5 ex_c16) in
+  r_n st = 6%nat /\ map proj (fst (ce_merged (r_ce st) 3)) = [(false,0);(false,0);(false,0);(false,0);(false,2);(false,1)].
+Proof. vm_compute. split; reflexivity. Qed.
+
 Print Assumptions C06_spec_meaning.
 Print Assumptions C06_spec_t_is_spec.
 Print Assumptions C06_merged_equals_spec.
 Print Assumptions C06_merged_from_invariant.
 Print Assumptions C06_order_independent.
 Print Assumptions C06_flush_drop_histories.
+Print Assumptions C06_reuse_history_merged.
